@@ -416,7 +416,7 @@ Qed.
 Theorem step_raise_preserves c o c' e : revalidates c -> step tb c o = (c', Raise e) -> c' = c.
 Proof.
   intros Hr. destruct (is_photon (c_kind c)) eqn:Hk.
-  - destruct o as [a|a|oa|a|a| | | |o'|o'|o'|reset]; simpl; rewrite ?Hk.
+  - destruct o as [a|a|oa|a|a| | | |o'|o'|o'|reset|]; simpl; rewrite ?Hk.
     + apply photon_set2d_raise.
     + apply photon_set3d_raise.
     + intro H; inversion H.
@@ -430,7 +430,8 @@ Proof.
     + unfold det_assign. destruct (det_setter tb (c_kind c)); try (intro H; inversion H; reflexivity).
       destruct (read2d o'); try (intro H; inversion H; reflexivity). rewrite Hk. apply photon_set2d_raise.
     + destruct (c_kind c); try (intro H; inversion H; fail); simpl in Hk; discriminate.
-  - destruct o as [a|a|oa|a|a| | | |o'|o'|o'|reset]; simpl; rewrite ?Hk.
+    + intro H; inversion H; reflexivity.
+  - destruct o as [a|a|oa|a|a| | | |o'|o'|o'|reset|]; simpl; rewrite ?Hk.
     + apply base_set_raise.
     + intro H; inversion H.
     + destruct oa; [apply base_set_raise | intro H; inversion H].
@@ -448,6 +449,7 @@ Proof.
       * destruct (c_content c) as [cur|] eqn:Ec; [|intro H; inversion H]. destruct reset; [|intro H; inversion H].
         assert (Hk2 : is_photon (c_kind c) = false) by (rewrite Ek; reflexivity).
         rewrite validate_base_with_data, (Hr Hk2 cur Ec). intro H; inversion H.
+    + intro H; inversion H; reflexivity.
 Qed.
 
 Lemma validate_zeros c : c_kind c = Pixel -> validate_base tb c (zeros_f64 (c_rows c) (c_cols c)) = None.
@@ -526,15 +528,25 @@ Theorem read3d_empty_raises c :
   c_kind c = Photon -> c_content c = None -> step tb c ORead3D = (c, Raise ValueError).
 Proof. intros Hk H. simpl. rewrite Hk. simpl. unfold read3d. rewrite H. reflexivity. Qed.
 
+Theorem asarray_empty_raises c :
+  c_content c = None -> exists e, step tb c OAsArray = (c, Raise e).
+Proof.
+  intro H. simpl. unfold asarray_res. rewrite H. destruct (is_photon (c_kind c)); eexists; reflexivity.
+Qed.
+
 (* a read never returns anything but the stored array, and never changes the state *)
 Theorem read_returns_content c c' a :
-  (step tb c ORead = (c', RetArr a) \/ step tb c ORead3D = (c', RetArr a)) -> c' = c /\ c_content c = Some a.
+  (step tb c ORead = (c', RetArr a) \/ step tb c ORead3D = (c', RetArr a) \/ step tb c OAsArray = (c', RetArr a)) ->
+  c' = c /\ c_content c = Some a.
 Proof.
-  intros [H|H]; simpl in H.
+  intros [H|[H|H]]; simpl in H.
   - inversion H. split; [reflexivity|]. apply read2d_arr_base. assumption.
   - destruct (is_photon (c_kind c)); [|discriminate]. injection H as Hc Hr. split; [symmetry; exact Hc|].
     unfold read3d in Hr. destruct (c_content c) as [x|]; [|discriminate]. destruct (is_xr x); [|discriminate].
     injection Hr as ->. reflexivity.
+  - injection H as Hc Hr. split; [symmetry; exact Hc|]. unfold asarray_res in Hr.
+    destruct (c_content c) as [x|]; [|destruct (is_photon (c_kind c)); discriminate].
+    destruct (is_xr x); [discriminate|]. injection Hr as ->. reflexivity.
 Qed.
 
 End WithTables.
